@@ -14,8 +14,11 @@ import (
 	"io"
 	"net"
 	"net/netip"
+	"os"
+	"path/filepath"
 	"runtime"
 	"strconv"
+	"strings"
 	"time"
 
 	"github.com/irai/packet"
@@ -293,6 +296,23 @@ func main() {
 		return
 	}
 
+	// corpus first: witnesses of the recorded findings and of past disagreements (one case line per line)
+	if dir := os.Getenv("VERIF_CORPUS"); dir != "" {
+		files, _ := filepath.Glob(filepath.Join(dir, "*.txt"))
+		for _, fn := range files {
+			data, _ := os.ReadFile(fn)
+			for _, l := range strings.Split(string(data), "\n") {
+				f := strings.Fields(l)
+				if len(f) < 8 || strings.HasPrefix(l, "#") {
+					continue
+				}
+				obs := r.Do(f[0], f[1:]...)
+				c, rest := cfgOf(f[1:])
+				oracle(r, f[0], c, rest, obs)
+				r.Stat("class.corpus", 1)
+			}
+		}
+	}
 	do := func(kind string, c nicCfg, args ...string) {
 		all := append(c.toks(), args...)
 		obs := r.Do(kind, all...)
